@@ -97,8 +97,18 @@ def lex_cmp(a, b):
             lt = zor(lt, zand(eq, l2))
             eq = zand(eq, e2)
         return lt, eq
+    if isinstance(a, Enum) and isinstance(b, Enum):
+        # derive semantics: by variant order, then field-wise
+        if a.variant != b.variant:
+            return a.variant < b.variant, False
+        lt, eq = False, True
+        for x, y in zip(a.fields, b.fields):
+            l2, e2 = lex_cmp(x, y)
+            lt = zor(lt, zand(eq, l2))
+            eq = zand(eq, e2)
+        return lt, eq
     if isinstance(a, Enum) or isinstance(b, Enum):
-        raise Unsupported("comparison of enums")
+        raise Unsupported("comparison of an enum with a non-enum")
     if isinstance(a, bool) or (is_sym(a) and z3.is_bool(a)):
         za, zb = zbool(a), zbool(b)
         if is_conc(a) and is_conc(b):
@@ -122,7 +132,9 @@ def require_derived_or_prim(ex, func, a):
     """`lt` & co on a crate struct are only modelled structurally when the type's
     PartialOrd/PartialEq impl is #[derive]d (checked against the source span)."""
     a = deref(a)
-    if not isinstance(a, Struct):
+    if isinstance(a, Enum) and re.search(r"<(std::option::|core::option::)?Option<", func):
+        return      # Option<T>'s PartialEq/PartialOrd are the derived ones from core
+    if not isinstance(a, (Struct, Enum)):
         return
     m = re.search(r"<(.*?) as (?:std::cmp::|core::cmp::)?(PartialOrd|PartialEq|Ord)(<.*?>)?>::", func)
     if not m:
@@ -411,7 +423,7 @@ def m_from_residual(ex, st, func, args, argtys, dest_ty):
     return [("ret", err(e.fields[0] if e.fields else Opaque("err")), None)]
 
 
-@model(r"bool::then_some::<.*>$")
+@model(r"::then_some::<.*>$")
 def m_then_some(ex, st, func, args, argtys, dest_ty):
     c = args[0]
     if is_conc(c):
@@ -608,6 +620,8 @@ def m_position(ex, st, func, args, argtys, dest_ty):
         res = call_closure(ex, st, args[1], [Struct([Ref(cell)])] if False else [Ref(cell)])
         if len(res) != 1 or res[0][0] != "ret":
             raise Unsupported("position predicate forks")
+        if res[0][2] is not None:
+            st.pc.append(res[0][2])
         b = res[0][1]
         outs.append(("ret", some(i), zand(*(prefix + [b]))))
         prefix.append(znot(b))
@@ -1429,6 +1443,8 @@ def m_keys_any(ex, st, func, args, argtys, dest_ty):
         res = call_closure(ex, st, args[1], [Ref([k])])
         if len(res) != 1 or res[0][0] != "ret":
             raise Unsupported("any() predicate forks")
+        if res[0][2] is not None:
+            st.pc.append(res[0][2])      # definitional constraints of SSA-named intermediates
         conds.append(res[0][1])
     return [("ret", zor(*conds) if conds else False, None)]
 
